@@ -1,20 +1,22 @@
 (* Props/C16.v -- serde: typed data round-trips through Value and agrees with serde_json.
-   Statements only.  The float formatting / parsing dependencies (lexical) appear as
+   Statements only.  Reading a number spelling is std's correctly rounded str::parse (the
+   model's dbl / sgl); the float PRINTERS (lexical, serde_json's Display) appear as
    universally quantified functions constrained by explicit premises. *)
-From JsonSyntax Require Import Base.Prelude Base.Value Spec.SerdeTyped Model.Serde Proofs.SerdeProofs
-  Proofs.SerdeShape Proofs.SerdeViaJson.
+From JsonSyntax Require Import Base.Prelude Base.Value Base.Float64 Spec.NumSpelling Spec.SerdeTyped
+  Model.Serde Proofs.SerdeProofs Proofs.SerdeShape Proofs.SerdeViaJson.
 Local Open Scope Z_scope.
 
 (* to_value then from_value yields the datum (with -0.0 read back as +0.0), for every
-   well-typed datum with finite floats outside the three known classes *)
+   well-typed datum with finite floats outside the one known class (a map whose first key
+   is the private number token).  Premises: the printed spelling of a finite float reads
+   back, correctly rounded, as that float. *)
 Theorem C16_roundtrip :
-  forall (E : env) (fmt_f64 fmt_f32 : Z -> list N) (lossy : list N -> Z),
-  (forall b, f64_wf b = true -> f64_finite b = true -> de_f64 (num_event lossy (fmt_f64 b)) = f64_norm b) ->
-  (forall b, f32_wf b = true -> f32_finite b = true -> f32_dr b = false ->
-             de_f32 (num_event lossy (fmt_f32 b)) = f32_norm b) ->
+  forall (E : env) (fmt_f64 fmt_f32 : Z -> list N),
+  (forall b, f64_wf b = true -> f64_finite b = true -> de_f64 (num_event (fmt_f64 b)) = f64_norm b) ->
+  (forall b, f32_wf b = true -> f32_finite b = true -> de_f32 (fmt_f32 b) = f32_norm b) ->
   forall d t, has_type E d t = true -> finite_floats d = true -> known_class d = false ->
   exists v, tser fmt_f64 fmt_f32 d = Ok v /\
-            exists n, forall fuel, (n <= fuel)%nat -> de E lossy fuel t v = Ok (norm d).
+            exists n, forall fuel, (n <= fuel)%nat -> de E fuel t v = Ok (norm d).
 Proof. exact roundtrip_RT. Qed.
 Print Assumptions C16_roundtrip.
 
@@ -30,64 +32,64 @@ Print Assumptions C16_nonfinite.
    (json-syntax spells an f32 with its shortest digits, serde_json widens it to f64 first;
    for those the shapes agree at binary32 precision, which the correspondence run checks) *)
 Theorem C16_shape :
-  forall (E : env) (fmt_f64 fmt_f32 : Z -> list N) (lossy : list N -> Z),
-  (forall b, f64_wf b = true -> f64_finite b = true -> num_key lossy false (fmt_f64 b) = key_of_f64 b) ->
+  forall (E : env) (fmt_f64 fmt_f32 : Z -> list N),
+  (forall b, f64_wf b = true -> f64_finite b = true -> num_key false (fmt_f64 b) = key_of_f64 b) ->
   forall d, (exists t, has_type E d t = true) -> finite_floats d = true -> known_class d = false ->
   no_f32 d = true ->
   exists v j, tser fmt_f64 fmt_f32 d = Ok v /\ ser_sj d = Ok j /\
-              shape_of lossy false v = shape_of_sj false j.
+              shape_of false v = shape_of_sj false j.
 Proof. exact shape_SH. Qed.
 Print Assumptions C16_shape.
 
 (* serde_json's rendering (ser_sj) converted into a Value (from_tsj) and deserialized yields
    the datum exactly -- sign of zero included -- with every map's entries in the order of
-   their rendered keys (sort_maps); only K2 data (a tuple variant without fields) is excluded *)
+   their rendered keys (sort_maps); no class is excluded *)
 Theorem C16_via_json :
-  forall (E : env) (fmt_sj : Z -> list N) (lossy : list N -> Z),
-  (forall x, f64_wf x = true -> f64_finite x = true -> num_event lossy (fmt_sj x) = EvF x) ->
-  (forall b, f32_wf b = true -> f32_finite b = true ->
-     f64_wf (f64_of_f32 b) = true /\ f64_finite (f64_of_f32 b) = true /\ f32_of_f64 (f64_of_f32 b) = b) ->
-  forall d t, has_type E d t = true -> finite_floats d = true -> k2_class d = false ->
+  forall (E : env) (fmt_sj : Z -> list N),
+  (forall x, f64_wf x = true -> f64_finite x = true -> num_event (fmt_sj x) = EvF x) ->
+  (forall b, f32_wf b = true -> f32_finite b = true -> de_f32 (fmt_sj (f64_of_f32 b)) = b) ->
+  forall d t, has_type E d t = true -> finite_floats d = true ->
   exists j, ser_sj d = Ok j /\
-            exists n, forall fuel, (n <= fuel)%nat -> de E lossy fuel t (from_tsj fmt_sj j) = Ok (sort_maps d).
+            exists n, forall fuel, (n <= fuel)%nat -> de E fuel t (from_tsj fmt_sj j) = Ok (sort_maps d).
 Proof. exact via_VIA. Qed.
 Print Assumptions C16_via_json.
 
-(* the property is false on the known classes (recorded findings) *)
+(* the property is false on the known class (recorded finding) *)
 Theorem C16_K1_refuted :
   has_type [] k1_witness (TyMap KStr TyStr) = true /\ finite_floats k1_witness = true /\
   known_class k1_witness = true /\
   to_value_ref k1_witness = Ok (VNum (s2l "12")) /\
-  forall lossy fuel, de [] lossy (S fuel) (TyMap KStr TyStr) (VNum (s2l "12")) = Err tt.
+  forall fuel, de [] (S fuel) (TyMap KStr TyStr) (VNum (s2l "12")) = Err tt.
 Proof. exact k1_refuted. Qed.
 Print Assumptions C16_K1_refuted.
 
-Theorem C16_K2_refuted :
-  has_type k2_env k2_witness (TyNamed (s2l "E")) = true /\ finite_floats k2_witness = true /\
-  known_class k2_witness = true /\
-  to_value_ref k2_witness = Ok (VObj [(s2l "Z", VArr [])]) /\
-  forall lossy fuel, de k2_env lossy (S fuel) (TyNamed (s2l "E")) (VObj [(s2l "Z", VArr [])]) = Err tt.
-Proof. exact k2_refuted. Qed.
-Print Assumptions C16_K2_refuted.
+(* former findings, repaired in the code and now inside the theorems' domain *)
+Theorem C16_empty_tuple_variant_example :
+  has_type tv0_env tv0 (TyNamed (s2l "E")) = true /\ known_class tv0 = false /\
+  to_value_ref tv0 = Ok (VObj [(s2l "Z", VArr [])]) /\
+  from_value_ref tv0_env 3 (TyNamed (s2l "E")) (VObj [(s2l "Z", VArr [])]) = Ok tv0.
+Proof. exact empty_tuple_variant_example. Qed.
+Print Assumptions C16_empty_tuple_variant_example.
 
-Theorem C16_K3_refuted :
-  has_type [] (SdF32 0x15ae43fd) TyF32 = true /\ finite_floats (SdF32 0x15ae43fd) = true /\
-  known_class (SdF32 0x15ae43fd) = true /\
-  lossy_ref k3_spelling = 0x3ab5c87fb0000000 /\
-  de_f32 (num_event lossy_ref k3_spelling) = 0x15ae43fe /\
-  forall fmt_f64 fmt_f32, fmt_f32 0x15ae43fd = k3_spelling ->
-    tser fmt_f64 fmt_f32 (SdF32 0x15ae43fd) = Ok (VNum k3_spelling) /\
-    forall fuel, de [] lossy_ref (S fuel) TyF32 (VNum k3_spelling) = Ok (SdF32 0x15ae43fe).
-Proof. exact k3_refuted. Qed.
-Print Assumptions C16_K3_refuted.
+Theorem C16_f32_midpoint_example :
+  sf_bits (dbl mid_spelling) = 0x3ab5c87fb0000000 /\
+  f32_of_f64 (sf_bits (dbl mid_spelling)) = 0x15ae43fe /\
+  de_f32 mid_spelling = 0x15ae43fd /\
+  de_f32 (0x2D%N :: mid_spelling) = 0x95ae43fd /\
+  fmt_f32_ref 0x15ae43fd = mid_spelling /\
+  from_value_ref [] 2 TyF32 (VNum mid_spelling) = Ok (SdF32 0x15ae43fd).
+Proof. exact f32_midpoint_example. Qed.
+Print Assumptions C16_f32_midpoint_example.
 
-Theorem C16_widen_sample :
-  forallb (fun b => f64_wf (f64_of_f32 b) && f64_finite (f64_of_f32 b) && (f32_of_f64 (f64_of_f32 b) =? b)) sample32 = true.
-Proof. exact widen_sample. Qed.
-Print Assumptions C16_widen_sample.
+(* non-vacuity: the reference instances satisfy the premises on samples *)
+Theorem C16_via_premises_sample :
+  forallb (fun x => match num_event (fmt_sj_ref x) with EvF y => y =? x | _ => false end) sample64 = true /\
+  forallb (fun b => de_f32 (fmt_sj_ref (f64_of_f32 b)) =? b) sample32 = true.
+Proof. exact via_premises_sample. Qed.
+Print Assumptions C16_via_premises_sample.
 
 Theorem C16_reference_instances_sample :
-  forallb (fun b => f64_wf b && f64_finite b && (de_f64 (num_event lossy_ref (fmt_f64_ref b)) =? f64_norm b)) sample64 = true /\
-  forallb (fun b => f32_wf b && f32_finite b && negb (f32_dr b) && (de_f32 (num_event lossy_ref (fmt_f32_ref b)) =? f32_norm b)) sample32 = true.
+  forallb (fun b => f64_wf b && f64_finite b && (de_f64 (num_event (fmt_f64_ref b)) =? f64_norm b)) sample64 = true /\
+  forallb (fun b => f32_wf b && f32_finite b && (de_f32 (fmt_f32_ref b) =? f32_norm b)) sample32 = true.
 Proof. exact reference_instances_sample. Qed.
 Print Assumptions C16_reference_instances_sample.
